@@ -274,7 +274,10 @@ func (c *c01Engine) runWithin(q []c01Stmt, deadline time.Duration) c01Result {
 	if err != nil {
 		return c01Result{bad: "decode: " + err.Error()}
 	}
-	pipe, err := g.Compiler().Compile(stmts, nil)
+	pipe, err, pnc := SafeCompile(g, stmts)
+	if pnc != "" {
+		return c01Result{bad: "panic in Compile: " + pnc}
+	}
 	if err != nil {
 		return c01Result{compileErr: true}
 	}
